@@ -208,6 +208,8 @@ def to_py(v, ctx):
         return [to_py(x, ctx) for x in v['v']]
     if t == 'tuple':
         return tuple(to_py(x, ctx) for x in v['v'])
+    if t == 'ndarray':            # the values as a numpy array (1-D or nested)
+        return np.array([to_py(x, ctx) for x in v['v']] if not v.get('nested') else [[to_py(y, ctx) for y in x['v']] for x in v['v']], dtype=v.get('dtype'))
     if t == 'enum':
         from dliswriter.utils import enums
         return getattr(getattr(enums, v['enum']), v['member'])
@@ -257,7 +259,7 @@ def abs_scalar(v, ctx):
 
 
 def flatten(v):
-    if v['t'] in ('list', 'tuple'):
+    if v['t'] in ('list', 'tuple', 'ndarray'):
         out = []
         for x in v['v']:
             out.extend(flatten(x))
@@ -749,6 +751,11 @@ def op_write(step, ctx):
         kw['from_idx'] = frm
     if 'to' in o:
         kw['to_idx'] = to
+    if o.get('as_path'):          # pathlib.Path objects instead of strings (output file, HDF5 source)
+        import pathlib
+        path = pathlib.Path(path)
+        if isinstance(kw.get('data'), str):
+            kw['data'] = pathlib.Path(kw['data'])
     try:
         ctx['files'][step['fid']].write(path, **kw)
         ev['outcome'] = 'ok'
